@@ -49,7 +49,7 @@ pub const ATOMIC_METHODS: &[&str] = &[
     "try_acquire", "acquire", "add_permits", "close", "is_closed", "try_acquire_many",
     "fetch_add", "fetch_sub", "load", "store", "forget_permits", "available_permits",
 ];
-pub const ACQUIRE_METHODS: &[&str] = &["try_acquire", "acquire"];
+pub const ACQUIRE_METHODS: &[&str] = &["try_acquire", "acquire", "try_acquire_many", "acquire_many"];
 pub const CONSUMER_METHODS: &[&str] = &["forget", "disarm", "ready", "await_", "then_", "drop_unpolled_"];
 
 pub struct Elab<'a> {
@@ -145,7 +145,7 @@ fn find_acquire(e: &Expr) -> Option<(Expr, String)> {
                 return;
             }
             let name = m.method.to_string();
-            if ACQUIRE_METHODS.contains(&name.as_str()) && m.args.is_empty() {
+            if ACQUIRE_METHODS.contains(&name.as_str()) {
                 if let Some(f) = last_field(&m.receiver) {
                     self.0 = Some(((*m.receiver).clone(), f));
                     return;
@@ -1486,6 +1486,30 @@ impl<'a> Elab<'a> {
                         });
                     }
                 }
+            }
+        }
+        // `for PAT in A..B`  →  counting while
+        if let Expr::Range(r) = &iter {
+            if let (Some(a), Some(b), RangeLimits::HalfOpen(_)) = (&r.start, &r.end, &r.limits) {
+                let a2 = self.fold_expr((**a).clone());
+                let b2 = self.fold_expr((**b).clone());
+                let idx = format_ident!("__i{}", self.loop_ctr - 1);
+                let end = format_ident!("__end{}", self.loop_ctr - 1);
+                self.brk_stack.push(None);
+                let mut body = self.fold_loop_body(f.body);
+                self.brk_stack.pop();
+                let pat2 = self.fold_pat(pat);
+                let bind: Vec<Stmt> = if matches!(pat2, Pat::Wild(_)) { vec![] } else { vec![parse_quote!(let #pat2 = #idx;)] };
+                let mut stmts: Vec<Stmt> = vec![marker];
+                stmts.extend(bind);
+                stmts.append(&mut body.stmts);
+                stmts.push(parse_quote!(#idx += 1;));
+                let body = block_of(stmts);
+                return parse_quote!({
+                    let mut #idx = #a2;
+                    let #end = #b2;
+                    while #idx < #end #body
+                });
             }
         }
         // `for PAT in &X` / `X.iter()`  →  indexed while
